@@ -83,6 +83,7 @@ func C02(r *core.Run) {
 	rule1014(r)
 	rule0214(r)
 	rule099(r)
+	rule0215(r)
 }
 
 // handler exceptions for R02.1, one reason each
@@ -1210,4 +1211,41 @@ func containerField(r *core.Run, v ssa.Value) string {
 		}
 	}
 	return ""
+}
+
+// rule0215 — a bucket listing is not cut short from inside its loop.
+func rule0215(r *core.Run) {
+	r.Rule("R02.15", "in every ListBuckets implementation (and in the closures it runs) a return whose error is not known to be non-nil does not leave from inside the loop over the buckets: skipping one entry is `continue` (or `return nil` from a per-entry callback), never the end of the listing — a `return nil` that used to skip the bookkeeping bucket inside a ForEach callback ends the whole listing once the callback has become a loop body")
+	n := 0
+	for _, impl := range []string{"s3mem.(*Backend)", "s3bolt.(*Backend)", "s3afero.(*MultiBucketBackend)", "s3afero.(*SingleBucketBackend)"} {
+		fn := implMethod(r, impl, "ListBuckets")
+		if fn == nil {
+			continue
+		}
+		for _, f := range core.Closures(fn) {
+			for _, x := range errorExits(f) {
+				n++
+				ev := core.BlockLocalLoad(x.val)
+				if !definitelyNil(r, ev) && core.NilnessAt(ev, x.ret.Block()) == core.NonNil {
+					continue
+				}
+				inside := exitsLoopFromInside(x.ret)
+				if x.via != nil {
+					inside = blockExitsLoopFromInside(x.via, x.ret.Block())
+				}
+				nonNil := false
+				for _, g := range x.guards {
+					if isNil, known := core.ErrNilFact(g, ev); known && !isNil {
+						nonNil = true
+					}
+				}
+				if nonNil {
+					continue
+				}
+				r.Check(!inside, "R02.15", key(fname(r, f), "no successful return from inside the loop", sprintf("#%d", n)), pos(r, x.ret), "returns after the loop",
+					"ListBuckets can return successfully from inside its loop over the buckets: every bucket after that point is missing from the listing")
+			}
+		}
+	}
+	r.Floor("R02.15", 4, "returns of ListBuckets implementations")
 }
